@@ -51,6 +51,14 @@ def leg_family():
         out.append({"dom": 1, "layers": [H] * nh + [{"b": ZB("Z", 1, 2, 3), "off": 0}]})
         out.append({"dom": 1, "layers": [{"b": ZB("X", 1, 1, 5), "off": 0}] + [H] * nh})
         out.append({"dom": 2, "layers": [H] * (nh // 2) + [S] + [{"b": ZB("H", 1, 1), "off": 1}] * (nh - nh // 2) + [{"b": ZB("Z", 2, 1, 3), "off": 0}]})
+    # two output legs of one spider, a Hadamard on one of them, then the two legs crossed (the crossing moves the Hadamard
+    # to the other output), with and without a phase gate downstream that tells the outputs apart
+    for k in ("Z", "X"):
+        for n_in in (0, 1):
+            for hleg in (0, 1):
+                for tail in ((), ({"b": ZB("Z", 1, 1, 2), "off": 0},), ({"b": ZB("X", 1, 1, 2), "off": 1},)):
+                    out.append({"dom": n_in, "layers": [{"b": ZB(k, n_in, 2, 1), "off": 0}, {"b": ZB("H", 1, 1), "off": hleg}, S] + list(tail)})
+        out.append({"dom": 1, "layers": [{"b": ZB(k, 1, 3, 1), "off": 0}, {"b": ZB("H", 1, 1), "off": 1}, dict(S, off=1), dict(S, off=0)]})
     return out
 
 
